@@ -48,9 +48,10 @@ def decode(p):
             return {"kind": "import statement in a program parsed under a source name", "cwd": "B/" + _s(f[1]),
                     "locator_root": _s(f[3]), "root_is": "B/" + _s(f[4]), "source_name": _s(f[5]), "import_path": _s(f[6]),
                     "files (pos>inner = module importing inner)": _s(f[2]).split(",")}
-        if f[0] in "TU":
+        if f[0] in "TUV":
             d = {"kind": ("cli/tool: CLIInterpreter{Dir}.CreateRuntimeProvider + entry file with the import statement" if f[0] == "T" else
-                          "cli/tool through ParseArgs: ecal run [-dir <dir>] -loglevel Error <entry file>"),
+                          "cli/tool CLIInterpreter.Interpret(false) over `ecal run [-dir <dir>] -loglevel Error <entry file>`" if f[0] == "U" else
+                          "cli/tool CLIInterpreter.Interpret(false) over `ecal run [-dir <dir>] -loglevel Error`, import typed at the console (HandleInput)"),
                  "cwd": "B/" + _s(f[1]), "configured_dir": ("(no -dir)" if f[3] == "~" else _s(f[3])), "model_root": _s(f[4]), "root_is": "B/" + _s(f[5]),
                  "path_prefix": None if f[6] == "~" else _s(f[6]), "depth": int(f[7]),
                  "tree_also_has": "top/dlink -> nowhere (dangling), top/lnin -> root/sub, top/lnout -> ../abs"}
@@ -66,6 +67,34 @@ def decode(p):
         return d
     except Exception:
         return p
+
+
+def _unbatch(payload, g, m):
+    """the payload of the first path on which the batched results g and m differ, as a line of its own"""
+    f = payload.split(" ")
+    gs, ms = g.split(","), m.split(",")
+    k = next((j for j in range(min(len(gs), len(ms))) if gs[j] != ms[j]), None)
+    nine = f[0].upper() in "TUV"
+    pre_i, dep_i, alp_i = (6, 7, 8) if nine else (5, 6, 7)
+    if k is None or len(f) != (9 if nine else 8) or f[dep_i] == "0":
+        return None
+    alpha = _sb(f[alp_i]).split(b",")
+    depth = int(f[dep_i])
+    ext = []
+    for _ in range(depth):
+        ext.append(alpha[k % len(alpha)])
+        k //= len(alpha)
+    ext.reverse()
+    if f[pre_i] == "~":
+        path = b"/".join(ext)
+    else:
+        path = _sb(f[pre_i]) + b"".join(b"/" + e for e in ext)
+    f[pre_i], f[dep_i], f[alp_i] = (path.hex() if path else "-"), "0", "-"
+    return " ".join(f)
+
+
+def _sb(h):
+    return b"" if h == "-" else bytes.fromhex(h)
 
 
 def post(ctx, cases, gores, model):
@@ -85,6 +114,36 @@ def post(ctx, cases, gores, model):
                                            f"./check {ctx.prop} --replay <this file>", tag="outside")
                 checklib.violation(ctx, rp, f"content of a file OUTSIDE the root returned: go={g[:80]!r}")
     ctx.coverage["outside_results"] = n
+    # a line that carries many paths prints digests of the opened strings: on a mismatch run the first differing
+    # path alone (unbatched), where both sides print the full strings, and report that as the replay
+    expanded = 0
+    for i in sorted(cases, key=lambda i: (len(cases[i]), i)):
+        g, m = gores.get(i, ""), model.get(i, ("", {}))[0]
+        if cases[i][0] not in KINDS or g == m or "," not in g:
+            continue
+        single = _unbatch(cases[i], g, m)
+        if single is None:
+            continue
+        expanded += 1
+        if expanded > 2:
+            break
+        try:
+            pr = subprocess.run([ctx.harness, ctx.prop, "-one", single], stdout=subprocess.PIPE, stderr=subprocess.STDOUT, text=True,
+                                cwd=ctx.work, env=checklib.GOENV, timeout=120)
+            lines = [l for l in pr.stdout.splitlines() if l.strip()]
+            go1 = lines[0] if lines else "NO-OUTPUT"
+            m1 = checklib.run_driver(ctx, ctx.prop, {0: single}, shards=1).get(0, ("MISSING", {}))[0]
+        except Exception as e:  # the unbatched rerun is a convenience: the batched line is reported anyway
+            ctx.notes.append("unbatched rerun failed: %r" % (e,))
+            continue
+        if go1 != m1:
+            rp = checklib.write_replay(ctx, "input", {"payload": single, "readable": decode(single), "found_in_batched_line": decode(cases[i])},
+                                       m1, go1, f"./check {ctx.prop} --replay <this file>", tag="unbatched")
+            checklib.violation(ctx, rp, "go=%r model=%r (first differing path of a batched line, run alone: opened strings in full, hex)"
+                               % (go1[:120], m1[:120]))
+        else:
+            ctx.notes.append("a batched line differs (%r vs %r) but its first differing path agrees when run alone: the result depends on "
+                             "the preceding paths of the line (state in the locator / package?)" % (g[:60], m[:60]))
     if by_file:
         ctx.coverage["outside_by_file"] = by_file
     ctx.coverage["paths_resolved"] = sum(len(g.split(",")) for i, g in gores.items() if cases.get(i, " ")[0] in KINDS)
@@ -92,7 +151,7 @@ def post(ctx, cases, gores, model):
                                               for i, g in gores.items() if cases.get(i, " ")[0] in KINDS)
     ctx.coverage["opens_observed_at_the_hook"] = sum(sum(1 for x in g.split(",") if x[:1] not in "-?")
                                                      for i, g in gores.items() if cases.get(i, " ")[0] in KINDS)
-    hookless = sum(1 for i in cases if cases[i][0] in "rijtun")
+    hookless = sum(1 for i in cases if cases[i][0] in "rijtuvn")
     ctx.coverage["hook_present"] = hookless == 0
     if hookless:
         ctx.notes.append("the tree under test has no verifhook.At(\"c17.open\", …) point in FileImportLocator.Resolve: the opened paths are "
@@ -108,7 +167,7 @@ def post(ctx, cases, gores, model):
     ctx.coverage["source_fact_theorems"] = facts
 
 
-KINDS = "RIJTUNrijtun"
+KINDS = "RIJTUVNrijtuvn"
 
 SPEC = dict(
     lean_modules=["Ecal.Props.C17", "Ecal.Props.C17Facts"],
@@ -123,13 +182,13 @@ SPEC = dict(
           "for one seed-rotated root in the quick tier), every path of <=3 elements over that alphabet + {$u.. ${u}.. %2e%2e ..%2f ~ "
           "..\\ ... '.. ' ' ..' ..NUL} (names that a rewrite after the test would turn into '..'), random longer paths with arbitrary "
           "bytes. (c) I lines = the same through `import \"<path>\" as x` in the interpreter (paths a literal cannot carry go through "
-          "an interpolated value); N = with the provider's default locator. (d) T / U lines = the real cli/tool: CLIInterpreter{Dir}."
-          "CreateRuntimeProvider resp. ParseArgs over `ecal run [-dir d] <entry>`, then the entry file through LoadInitialFile; Dir in "
+          "an interpolated value); N = with the provider's default locator. (d) T / U / V lines = the real cli/tool: CLIInterpreter{Dir}."
+          "CreateRuntimeProvider + LoadInitialFile (T), the whole CLIInterpreter.Interpret(false) over `ecal run [-dir d] <entry>` (U: ParseArgs, LoadStdlibPlugins, CreateTerm, CreateRuntimeProvider, LoadInitialFile) or with the import typed at the console (V: HandleInput); Dir in "
           "{existing, MISSING, a file, DANGLING symlink, symlink to a directory (modelled as its target), '', '.', none}. (e) J lines "
           "= import statements in programs parsed under source NAMES {plain, with directories, starting with '..', absolute, equal "
           "to files outside the root, ''} x import paths (plain, './', '../' prefixed, leading to module files that import again). "
           "Compared per path, exactly: the strings that reached the open (verifhook point c17.open directly before ReadFile; B-"
-          "independent spelling) and what came back: rej / relerr (no open), E, E+ (error together with content), I<n> / O<n> (content "
+          "independent spelling) and what came back: rej (an error and no open), E, E+ (error together with content), I<n> / O<n> (content "
           "of file n inside / OUTSIDE the root; any O is a violation whatever the model says). Regenerated three-valued source facts "
           "(locator roots; calls reachable from Resolve; receiver and argument of Resolve in importRuntime.Eval) are Lean obligations "
           "of their own; one that is not established amplifies (d), (e) and the extended alphabet. Non-trivial = a P line, or another "
